@@ -698,10 +698,17 @@ pub fn c11(p: &Params) {
     let block_on = p.variant & 1 == 1;
     let slot: Arc<Mutex<Option<Waker>>> = Arc::new(Mutex::new(None));
     let fut_polls = Arc::new(AtomicU32::new(0));
-    let wakes_needed = 1 + rng.below(p.ops as u64) as u32;
+    let mut wakes_needed = 1 + rng.below(p.ops as u64) as u32;
     // the last thread ends with stop(); wakeup() so that run() has a reason to return;
     // in block_on mode (variant bit 1 clear) nobody stops and the future has to complete
     let stopper = !block_on || p.variant & 2 == 2;
+    // variant bit 4 (block_on with a stopper): the future never completes however often it is
+    // woken, so only the stop request can end block_on - while wakes keep arriving
+    let never = block_on && stopper && p.variant & 4 == 4;
+    let wakes_sent = wakes_needed + 1;
+    if never {
+        wakes_needed = 1_000_000;
+    }
     for i in 1..=p.threads {
         let s = signal.clone();
         let done = done.clone();
@@ -710,7 +717,7 @@ pub fn c11(p: &Params) {
         let slot = slot.clone();
         let mut ops: Vec<u8> = (0..n).map(|_| rng.below(2) as u8).collect();
         if block_on {
-            ops = (0..wakes_needed + 1).map(|_| 2u8).collect();
+            ops = (0..wakes_sent).map(|_| 2u8).collect();
         }
         joins.push(shuttle::thread::spawn(move || {
             register_thread(i);
